@@ -217,13 +217,22 @@ func (s *Solver) Check(assertions []*Term, want []*Term) (Result, map[int]uint64
 	}
 	t0 := time.Now()
 	defer func() { s.wall += time.Since(t0) }()
+	// one-shot per query inside the live process: (reset) makes z3 use its full
+	// (non-incremental) bit-vector pipeline, which is orders of magnitude faster on
+	// multiplication chains than the incremental core used under push/pop.
+	s.emit("(reset)")
+	if s.kind == KindCVC5 {
+		s.emit("(set-logic ALL)")
+	}
+	s.emit("(set-option :produce-models true)")
+	s.defined = map[int]bool{}
+	s.declared = map[string]bool{}
 	for _, a := range assertions {
 		s.define(a)
 	}
 	for _, a := range want {
 		s.define(a)
 	}
-	s.emit("(push 1)")
 	for _, a := range assertions {
 		if a.op == OpConst {
 			if a.val == 0 {
@@ -275,8 +284,6 @@ func (s *Solver) Check(assertions []*Term, want []*Term) (Result, map[int]uint64
 				}
 				msg += l2 + "; "
 			}
-			s.emit("(pop 1)")
-			s.in.Flush()
 			s.nErr++
 			return SolverError, nil, msg
 		}
@@ -311,15 +318,11 @@ func (s *Solver) Check(assertions []*Term, want []*Term) (Result, map[int]uint64
 			s.in.Flush()
 			sx, err := s.readSexp()
 			if err != nil || strings.Contains(sx, "(error") {
-				s.emit("(pop 1)")
-				s.in.Flush()
 				s.nErr++
 				return SolverError, nil, "get-value: " + sx
 			}
 			got := parseValues(sx)
 			if len(got) != n {
-				s.emit("(pop 1)")
-				s.in.Flush()
 				s.nErr++
 				return SolverError, nil, fmt.Sprintf("get-value: parsed %d of %d: %s", len(got), n, sx)
 			}
@@ -328,8 +331,6 @@ func (s *Solver) Check(assertions []*Term, want []*Term) (Result, map[int]uint64
 			}
 		}
 	}
-	s.emit("(pop 1)")
-	s.in.Flush()
 	switch res {
 	case Sat:
 		s.nSat++
